@@ -414,6 +414,12 @@ func c19Class(e *kit.WErr) string {
 		}
 		return "a"
 	case "attr-len":
+		// OTC is an opaque unknown attribute to bio-rd's decoder (no fixed size to
+		// violate); AGGREGATOR is 6 or 8 bytes depending on what the sender thinks
+		// was negotiated (bio-rd itself always sends 6) - both sizes are left alone.
+		if strings.HasPrefix(e.Msg, "attribute 35 ") || strings.HasPrefix(e.Msg, "attribute 7 has length 6,") || strings.HasPrefix(e.Msg, "attribute 7 has length 8,") {
+			return ""
+		}
 		return "b"
 	case "aspath":
 		if strings.Contains(e.Msg, "segment type") {
@@ -540,8 +546,8 @@ func c19RunCase(t *rapid.T, rec *kit.Recorder) {
 	mutName := strings.Join(plan.muts, "+")
 	c.Logf("mutations %s -> clause %s (%v)", mutName, class, verdict)
 	c.Logf("mutant %s", hex.EncodeToString(mutant))
-	padded := rapid.Bool().Draw(t, "padded")
-	c.Logf("padded %v", padded)
+	padded := rapid.Bool().Draw(t, "via_recvMsg")
+	c.Logf("via recvMsg %v", padded)
 	c.Class("clause/" + class)
 	for _, m := range plan.muts {
 		if !strings.HasPrefix(m, "(") {
@@ -550,7 +556,7 @@ func c19RunCase(t *rapid.T, rec *kit.Recorder) {
 	}
 	c.ClassIf(s.IBGP, "ibgp")
 	c.ClassIf(!s.IBGP, "ebgp")
-	c.ClassIf(padded, "padded")
+	c.ClassIf(padded, "via_recvMsg")
 
 	rig := c19NewRig(s)
 	twin := c19NewRig(s)
@@ -596,7 +602,7 @@ func c19RunCase(t *rapid.T, rec *kit.Recorder) {
 		after = rig.c19Snapshot()
 	}()
 	if d := c19Diff(before, after); len(d) > 0 {
-		t.Fatalf("C19/installed clause=%s mutations=%s %v padded=%v: malformed UPDATE installed %d path(s) (next state %s, %q; packet.Decode accepts=%v)\nmutant: %s\nreference parser: %v\noriginal: %s\ninstalled:\n  %s",
+		t.Fatalf("C19/installed clause=%s mutations=%s %v viaRecvMsg=%v: malformed UPDATE installed %d path(s) (next state %s, %q; packet.Decode accepts=%v)\nmutant: %s\nreference parser: %v\noriginal: %s\ninstalled:\n  %s",
 			class, mutName, s, padded, len(d), st, why, accepts, hex.EncodeToString(mutant), verdict, hex.EncodeToString(ob), strings.Join(d, "\n  "))
 	}
 }
